@@ -405,7 +405,8 @@ func (s *Stream) reset() error {
 // and reuse the last share memory buffer slice of read buffer for next write by Stream.BufferWriter()
 func (s *Stream) ReleaseReadAndReuse() {
 	s.recvBuf.releasePreviousReadAndReserve()
-	if s.recvBuf.len == 0 && s.recvBuf.sliceList.size() == 1 {
+	// only an empty send buffer is exchanged: data which was written but not flushed yet would become received data.
+	if s.recvBuf.len == 0 && s.recvBuf.sliceList.size() == 1 && s.sendBuf.Len() == 0 {
 		s.recvBuf, s.sendBuf = s.sendBuf, s.recvBuf
 	}
 }
